@@ -1,6 +1,201 @@
-(* cachedrv.ml — glue for the cache-level suite (placeholder until Cache.v is extracted). *)
-type t = unit
+(* cachedrv.ml — glue between cache-level traces and the extracted cache model (Cache.v). *)
+module BZ = Z
+open Model
+open Conv
+
+type t = { cfg : cfg; st : cstate; dead : string option }
+
 exception Bad of string
-let create (_ : string list) : string * t = raise (Bad "cache suite not built")
-let step (_ : t) (_ : string) (_ : string list) : string * t = raise (Bad "cache suite not built")
-let snap (_ : t) : string = ""
+
+let validator_of (m : int) : n -> n -> bool =
+ fun prev curr ->
+  match m with
+  | 0 -> true
+  | 1 -> false
+  | 2 -> BZ.gt (bz_of_n curr) (bz_of_n prev)
+  | _ -> not (BZ.equal (BZ.rem (bz_of_n curr) (BZ.of_int 3)) (BZ.rem (bz_of_n prev) (BZ.of_int 3)))
+
+let coster_of (m : int) : n -> z =
+ fun v ->
+  match m with
+  | 0 -> Z0
+  | 1 -> z_of_bz (BZ.succ (BZ.rem (bz_of_n v) (BZ.of_int 5)))
+  | _ -> z_of_bz (BZ.of_int 7)
+
+let create (args : string list) : string * t =
+  match args with
+  | [ is_async; ctrs; max_cost; buf_cap; buffer_items; metrics; ignore_internal; item_size; vmode; cmode; now;
+      s0; s1; s2; s3; entries; locs ] -> (
+      let cfg =
+        { c_ignore_internal = ignore_internal = "1";
+          c_item_size = z_of_string item_size;
+          c_buf_cap = n_of_string buf_cap;
+          c_buffer_items = n_of_string buffer_items;
+          c_metrics = metrics = "1";
+          c_validator = validator_of (int_of_string vmode);
+          c_coster = coster_of (int_of_string cmode);
+          c_async = is_async = "1" }
+      in
+      match tl_new (n_of_string ctrs) (List.map n_of_string [ s0; s1; s2; s3 ]) (n_of_string entries) (n_of_string locs) with
+      | Some t -> ("ok", { cfg; st = cinit cfg (z_of_string max_cost) t (n_of_string now); dead = None })
+      | None -> raise (Bad "tl_new failed"))
+  | _ -> raise (Bad "cnew arity")
+
+let str_point = function
+  | PtFinish -> "finish"
+  | PtInsBeforeSend -> "ins:before_send"
+  | PtGetAfterPush -> "get:after_push"
+  | PtRemBeforeSend -> "rem:before_send"
+  | PtWaitAfterSend -> "wait:after_send"
+  | PtWaitBeforeBlock -> "wait:before_block"
+  | PtClearBeforeBlock -> "clear:before_block"
+  | PtCloseAfterFlag -> "close:after_flag"
+  | PtCloseBeforeStop -> "close:before_stop"
+  | PtCloseBeforePolicy -> "close:before_policy"
+  | PtPolCloseBeforeStop -> "polclose:before_stop"
+  | PtPolCloseAfterStop -> "polclose:after_stop"
+  | PtProcLoop -> "proc:loop"
+  | PtProcNewAfterAdd -> "proc:new:after_add"
+  | PtProcNewAfterStore -> "proc:new:after_store"
+  | PtProcNewVictim -> "proc:new:victim"
+  | PtProcDelAfterPolicy -> "proc:del:after_policy"
+  | PtProcClearAfterDrain -> "proc:clear:after_drain"
+  | PtProcClearAfterPolicy -> "proc:clear:after_policy"
+  | PtProcClearAfterStore -> "proc:clear:after_store"
+  | PtProcTickKey -> "proc:tick:key"
+  | PtProcTickAfterPolicy -> "proc:tick:after_policy"
+  | PtProcExit -> "proc:exit"
+  | PtPolLoop -> "pol:loop"
+  | PtPolExit -> "pol:exit"
+  | PtBlocked -> "blocked"
+
+let str_cb = function
+  | CbExit v -> "exit:" ^ string_of_n v
+  | CbEvict (k, c, v, cost) -> Printf.sprintf "evict:%s:%s:%s:%s" (string_of_n k) (string_of_n c) (string_of_n v) (string_of_z cost)
+  | CbReject (k, c, v, cost) -> Printf.sprintf "reject:%s:%s:%s:%s" (string_of_n k) (string_of_n c) (string_of_n v) (string_of_z cost)
+
+let str_ttl = function TtlInf -> "inf" | TtlNs x -> string_of_n x
+
+let str_res = function
+  | RNone -> "-"
+  | RBool b -> if b then "true" else "false"
+  | RGet None -> "get:none"
+  | RGet (Some (v, d)) -> Printf.sprintf "get:%s:%s" (string_of_n v) (str_ttl d)
+  | RGetMut None -> "getmut:none"
+  | RGetMut (Some v) -> "getmut:" ^ string_of_n v
+  | RTtl None -> "ttl:none"
+  | RTtl (Some d) -> "ttl:" ^ str_ttl d
+  | RUnit ok -> if ok then "ok" else "err"
+  | RZ x -> "z:" ^ string_of_z x
+  | RN x -> "n:" ^ string_of_n x
+
+let str_out (o : out) : string =
+  Printf.sprintf "at=%s cb=%s res=%s" (str_point o.o_at)
+    (if o.o_cbs = [] then "-" else String.concat "," (List.map str_cb o.o_cbs))
+    (str_res o.o_res)
+
+let snap (c : t) : string =
+  match c.dead with
+  | Some why -> "dead:" ^ why
+  | None ->
+      let st = c.st in
+      let store =
+        match asort st.s_store.st_map with
+        | [] -> "-"
+        | l ->
+            String.concat ";"
+              (List.map
+                 (fun (k, e) ->
+                   Printf.sprintf "%s:%s:%s:%s:%s" (string_of_n k) (string_of_n e.e_conflict) (string_of_n e.e_val)
+                     (string_of_n e.e_exp.t_created) (string_of_n e.e_exp.t_d))
+                 l)
+      in
+      let em =
+        match asort st.s_store.st_em with
+        | [] -> "-"
+        | l ->
+            String.concat ";"
+              (List.map
+                 (fun (b, ks) ->
+                   Printf.sprintf "%s[%s]" (string_of_n b)
+                     (String.concat "," (List.map (fun (k, cf) -> string_of_n k ^ ":" ^ string_of_n cf) (asort ks))))
+                 l)
+      in
+      let met = if c.cfg.c_metrics then str_metrics st.s_mets else "off" in
+      let hist = if c.cfg.c_metrics then Printf.sprintf "0,0,%s,0,0" (string_of_z st.s_hist_min) else "off" in
+      Printf.sprintf "now=%s closed=%d polclosed=%d buf=%d pq=%d ring=%s store=%s em=%s %s met=%s hist=%s %s"
+        (string_of_n st.s_now)
+        (if st.s_closed then 1 else 0)
+        (if st.s_pol_closed then 1 else 0)
+        (List.length st.s_buf) (List.length st.s_pqueue)
+        (if st.s_ring = [] then "-" else String.concat "," (List.map string_of_n st.s_ring))
+        store em (str_slfu st.s_slfu) met hist (str_tlfu st.s_tlfu)
+
+let parse_op (toks : string list) : cop =
+  match toks with
+  | [ "insert"; idx; conf; v; cost; ttl; only ] ->
+      OInsert (n_of_string idx, n_of_string conf, n_of_string v, z_of_string cost, n_of_string ttl, only = "1")
+  | [ "get"; idx; conf ] -> OGet (n_of_string idx, n_of_string conf)
+  | [ "getmut"; idx; conf; v ] -> OGetMutWrite (n_of_string idx, n_of_string conf, n_of_string v)
+  | [ "getttl"; idx; conf ] -> OGetTtl (n_of_string idx, n_of_string conf)
+  | [ "remove"; idx; conf ] -> ORemove (n_of_string idx, n_of_string conf)
+  | [ "wait" ] -> OWait
+  | [ "clear" ] -> OClear
+  | [ "close" ] -> OClose
+  | [ "maxcost" ] -> OMaxCost
+  | [ "setmax"; mc ] -> OUpdateMaxCost (z_of_string mc)
+  | [ "len" ] -> OLen
+  | _ -> raise (Bad ("op: " ^ String.concat " " toks))
+
+let rec parse_samples (n : int) (toks : string list) : (n * z) list list =
+  if n = 0 then []
+  else
+    match toks with
+    | len :: rest ->
+        let len = int_of_string len in
+        let rec pairs j toks acc =
+          if j = 0 then (List.rev acc, toks)
+          else match toks with k :: c :: r -> pairs (j - 1) r ((n_of_string k, z_of_string c) :: acc) | _ -> raise (Bad "oracle")
+        in
+        let ps, rest' = pairs len rest [] in
+        ps :: parse_samples (n - 1) rest'
+    | [] -> raise (Bad "oracle")
+
+let arm_of = function
+  | "item" -> Some ArmItem
+  | "clear" -> Some ArmClear
+  | "tick" -> Some ArmTick
+  | "stop" -> Some ArmStop
+  | _ -> None
+
+let parse_label (op : string) (args : string list) : label =
+  match op, args with
+  | "op", a :: rest -> LOp (n_of_string a, parse_op rest)
+  | "cl", [ a ] -> LClient (n_of_string a)
+  | "pr", arm :: tk :: nor :: rest ->
+      LProc { h_arm = arm_of arm; h_oracle = parse_samples (int_of_string nor) rest;
+              h_tick_key = (if tk = "-" then None else Some (n_of_string tk)) }
+  | "wk", [ arm ] -> LWorker { h_arm = arm_of arm; h_oracle = []; h_tick_key = None }
+  | "adv", [ dt ] -> LAdvance (n_of_string dt)
+  | "tick", [] -> LTick
+  | _ -> raise (Bad ("label: " ^ op))
+
+let step (c : t) (op : string) (args : string list) : string * t =
+  match c.dead with
+  | Some _ -> ("dead", c)
+  | None ->
+      if op = "stuck" then
+        (* the implementation reports a client that never came back: can the model's client move? *)
+        match args with
+        | a :: _ -> (
+            match continue_client c.cfg c.st (n_of_string a) with
+            | StepOk _ -> ("stuck:but-enabled-in-model", { c with dead = Some "impl stuck, model enabled" })
+            | _ -> ("stuck:blocked-in-model-too", c))
+        | [] -> raise (Bad "stuck")
+      else
+        let l = parse_label op args in
+        match cstep c.cfg c.st l with
+        | StepOk (st', o) -> (str_out o, { c with st = st' })
+        | StepBlocked -> ("model-blocked", { c with dead = Some "model-blocked" })
+        | StepIllegal w -> ("model-illegal:" ^ string_of_n w, { c with dead = Some "model-illegal" })
+        | StepPanic w -> ("model-panic:" ^ string_of_n w, { c with dead = Some "model-panic" })
